@@ -28,7 +28,7 @@ DTS = ['f64', 'f32', 'c128', 'c64']
 def cases(tier, seed):
     rng = random.Random('C19|%d' % seed)
     cs = []
-    n = 700 if tier == 'quick' else 12000
+    n = 3000 if tier == 'quick' else 40000
     for i in range(n):
         d = rng.randint(1, 6)
         N = [rng.choice((1, 2, 3, 4)) for _ in range(d)]
@@ -142,13 +142,13 @@ def run_case(case, ctx):
             return
         if any(c.requires_grad for c in y.cores):
             ctx.viol(key + '/clause=still-tracked', what)
-        if not dn.bit_equal(dn.D(y), ref):
+        if not _same_cores(y.cores, cores0):
             ctx.viol(key + '/clause=value', what)
     elif op == 'cpu':
         y = ctx.lib('cpu', lambda t: t.cpu(), x)
         if _bad(ctx, key, what, y):
             return
-        if not dn.bit_equal(dn.D(y), ref):
+        if not _same_cores(y.cores, cores0):
             ctx.viol(key + '/clause=value', what)
     elif op == 'to':
         tdt = dn.dtype_of(case['to_dtype'])
@@ -160,8 +160,7 @@ def run_case(case, ctx):
         if any(c.dtype != tdt for c in y.cores):
             ctx.viol(key + '/clause=dtype', '%s to %s: result dtypes %s' % (what, tdt, [c.dtype for c in y.cores]))
             return
-        want = dn.dense_of_cores([c.to(tdt) for c in cores0])
-        if not dn.bit_equal(dn.D(y), want):
+        if not _same_cores(y.cores, [c.to(tdt) for c in cores0]):
             ctx.viol(key + '/clause=value', '%s to %s' % (what, tdt))
     elif op == 'numpy':
         y = ctx.lib('numpy', lambda t: t.numpy(), x)
@@ -180,6 +179,11 @@ def run_case(case, ctx):
         if err > 1e3 * u * dn.s_rep(x):
             ctx.viol(key + '/clause=value', '%s: err %.3e' % (what, err))
     ctx.nontrivial((case['source'], op, _sig(x), case['to_dtype'] if op == 'to' else ''))
+
+
+def _same_cores(a, b):
+    """core-wise bit identity (no contraction involved: the comparison must not depend on memory layout)"""
+    return len(a) == len(b) and all(p.shape == q.shape and p.dtype == q.dtype and dn.bit_equal(p, q) for p, q in zip(a, b))
 
 
 def _sig(x):
